@@ -39,8 +39,8 @@ def body_unit(sig, n, le, tier):
 
 # measured (16 cores, 10 jobs): string-typed content is validated byte by byte (UTF-8 / path / signature grammar) and dominates
 # the cost; bounds per signature are chosen so that each quick unit stays under ~2 minutes.
-QUICK_N = {'g': 8, 'gu': None, 'ag': None, 'as': None, 'ao': 10, 'a{ys}': 10, 's': 12, 'o': 12, 'sy': 12, 'ys': 12}
-THOROUGH_N = {'g': 12, 'gu': 12, 'ag': 10, 'as': 10, 'ao': 12, 'a{ys}': 12, 's': 16, 'o': 16, 'sy': 16, 'ys': 16}
+QUICK_N = {'g': None, 'aau': None, 'a{ys}': None, 'aay': None, 'a(y(y))': None, 'gu': None, 'ag': None, 'as': None, 'ao': 10, 's': 12, 'o': 12, 'sy': 12, 'ys': 12}
+THOROUGH_N = {'aau': 16, 'aay': 16, 'a(y(y))': 16, 'g': 8, 'gu': 12, 'ag': 10, 'as': 10, 'ao': 12, 'a{ys}': 10, 's': 16, 'o': 16, 'sy': 16, 'ys': 16}
 
 
 for _i, _sig in enumerate(CATALOGUE_QUICK):
@@ -51,3 +51,15 @@ for _i, _sig in enumerate(CATALOGUE_QUICK):
         body_unit(_sig, _q, 1 - _i % 2, 'thorough')
     if _t != _q:
         body_unit(_sig, _t, _i % 2, 'thorough')
+
+
+# ---- nesting-depth bookkeeping of the body validator (B on a constant signature) ----------------------
+for _nm, _sig, _exp, _n in (('struct3', '(((y)))', '{0, 1, 2, 3}', 8), ('arr_struct', 'a(y)', '{0, 1, 2}', 16), ('dict', 'a{y(y)}', '{0, 1, 2, 3}', 20), ('arr2', 'aay', '{0, 1}', 16)):
+    UNITS.append(dict(name='C01.depth.' + _nm, props=['C01', 'C10'], kind='B', route='plain', entry='harness',
+                      tus=[dict(file=VAL, overlay='validate_depth.ovl'), dict(file=STR), dict(file=REC), dict(file=BASIC), dict(file='dbus/dbus-signature.c')],
+                      harness='harness/c01_depth.c', extra_sources=[ASSERT, 'stubs/list_as_stack.c'],
+                      defines=['VERIF_N=%d' % _n, 'VERIF_SIG="%s"' % _sig, 'VERIF_EXPECT=%s' % _exp], unwind=_n + 3, timeout=900, expect_s=20,
+                      cbmc_flags=['--object-bits', '10'], must_have=['depth.arg'],
+                      bounds={'signature': _sig, 'body_bytes': _n},
+                      functions=[dict(name='validate_body_helper', file=VAL, status='bounded', note='ghost log of the total_depth argument of every invocation')],
+                      assumptions=['dbus-list behaves as a LIFO stack of integers in the signature validator (stub, not verified)']))
